@@ -2,8 +2,14 @@ use crate::acme_proto::structs::Directory;
 use crate::duration::parse_duration;
 use acme_common::error::Error;
 use std::cmp;
+#[cfg(not(feature = "breard_r_acmed_verif"))]
 use std::time::{Duration, Instant};
+#[cfg(feature = "breard_r_acmed_verif")]
+use {crate::verif::time::Instant, std::time::Duration};
+#[cfg(not(feature = "breard_r_acmed_verif"))]
 use tokio::time::sleep;
+#[cfg(feature = "breard_r_acmed_verif")]
+use crate::verif::time::sleep;
 
 #[derive(Clone, Debug)]
 pub struct Endpoint {
